@@ -71,7 +71,11 @@ func zvC32Alphabet(universe string) []string {
 	for _, c := range zvC32Circuits {
 		if universe != "own" {
 			for seq := 1; seq <= 3; seq++ {
-				for _, life := range []int{2, 1200} {
+				lifes := []int{2, 1200}
+				if universe == "A" && seq >= 2 {
+					lifes = append(lifes, 0) // a copy whose lifetime has run out already (a purge): stored like any newer copy, gone after the next ticks
+				}
+				for _, life := range lifes {
 					a = append(a, fmt.Sprintf("lsp:%s:A:%d:%d", c, seq, life))
 				}
 			}
@@ -248,8 +252,8 @@ func (r *zvC32Ref) step(ev string, own0 uint32) (label string) {
 			}
 		}
 		for name, e := range r.db {
-			if listed[name] || e.seq == 0 || (name == "own" && r.ownOpen) {
-				continue
+			if listed[name] || e.seq == 0 || e.life <= 0 || (name == "own" && r.ownOpen) {
+				continue // (ISO 10589 7.3.15.2 b: an LSP with zero sequence number or zero remaining lifetime is not flooded back)
 			}
 			e.srm[c] = true
 		}
@@ -494,6 +498,10 @@ func zvC32Replay(hist []string, trace bool) (res zvC32Result) {
 					}
 					continue
 				}
+				if want != nil && got != nil && want.life <= -2 && last {
+					viol(vh.Sig("clause", "lsdb-content", "case", rel, "lsp", zvKind(name), "what", "not-aged-out"),
+						"after %q the LSDB still holds %s seq %d with remaining lifetime %d although its lifetime ran out %d ticks ago", ev, name, got.Seq, got.Life, -want.life)
+				}
 				if want == nil {
 					if got != nil && last {
 						viol(vh.Sig("clause", "lsdb-content", "case", rel, "lsp", zvKind(name), "what", "stored-unexpectedly"),
@@ -713,7 +721,7 @@ func TestVerifC32(t *testing.T) {
 		dFull, dA, dOwn = 4, 5, 6
 	}
 	full := zvC32Alphabet("full")
-	r.Rule(fmt.Sprintf("explicit-state BFS over histories of received LSPs/CSNPs/PSNPs (LSP IDs A, B, own; sequence numbers 1..3 resp. own-1/own/own+2 (own sub-alphabet also own+5); lifetimes 2/1200) on two circuits, aging ticks, own-LSP updates and LSP/PSNP/CSNP send rounds: "+
+	r.Rule(fmt.Sprintf("explicit-state BFS over histories of received LSPs/CSNPs/PSNPs (LSP IDs A, B, own; sequence numbers 1..3 resp. own-1/own/own+2 (own sub-alphabet also own+5); lifetimes 2/1200, in the foreign-LSP sub-alphabet also 0) on two circuits, aging ticks, own-LSP updates and LSP/PSNP/CSNP send rounds: "+
 		"full alphabet (%d events) to depth %d, sub-alphabets 'A' (%d events, foreign LSP only) to depth %d and 'own' (%d events, own LSP only) to depth %d; each history replayed on a fresh real Server (bound 0) in lock-step with the ISO 10589 reference; "+
 		"plus a 3600 s linear aging run from 2 roots; plus every schedule (<= 2 preemptions, thorough 3) of the receiver goroutines and the own-LSP updater for two (three) copies of the own LSP queued at once; non-trivial = distinct canonical states", len(full), dFull, len(zvC32Alphabet("A")), dA, len(zvC32Alphabet("own")), dOwn))
 	r.Require(zvC32Required...)
